@@ -10,7 +10,7 @@ CLAIM = ("Proved in Coq: the field-by-field comparison of broken-down local time
          "instant their content was started, is decided by the correspondence check (virtual clock + creation-time hooks) plus the "
          "oracle applied to the implementation's directory; an end-to-end invariant proof over histories exists for Numbers naming "
          "(C01/C08), the timestamp namings are partial.")
-THEOREMS = ["C09_rotation_iff_later_period"]  # + C09_period once merged
+THEOREMS = ["C09_period", "C09_calendar_bijective", "C09_civil_roundtrip", "C09_rotation_iff_later_period", "C09_age_or_size", "C09_model_decision"]
 TRUSTED = ["modelled, not verified: chrono's conversion of instants to local broken-down time (validated: file names are direct outputs), "
            "the file system's creation times (replaced by the virtual clock through the hooks)"]
 ASSUMPTIONS = ["fixed zone offset per process (DST transitions are outside the model)", "no I/O faults, single thread"]
